@@ -1,10 +1,10 @@
-(** C15 — property theorems only.  Each is closed by [exact] of a lemma proved in C15_Proofs.v.
+(** C15 — property theorems only.  Each is closed by [exact] of a lemma proved in C15_Proofs.v or C15_Proofs_QR.v.
     Model: coq/C15_Model.v, the term that is extracted and run against libphysica
     (Householder_Matrix, QR_Decomposition, Eigenvalues, Find_Eigenvector_Rayleigh, Eigensystem).
     [rsum f n] = f 0 + ... + f (n-1); [dlt] = Kronecker delta; [ment M i j] = entry (i,j) of a list-of-rows matrix.
     All statements are over the reals, for every dimension. *)
 From Coq Require Import Reals List.
-From LP Require Import Num NumR C15_Model C15_Proofs.
+From LP Require Import Num NumR C15_Model C15_Proofs C15_Proofs_QR.
 Import ListNotations.
 Local Open Scope R_scope.
 
@@ -103,3 +103,99 @@ Theorem C15_hypotheses_satisfiable :
    (forall i j, (i < 2)%nat -> (j < 2)%nat -> rsum (fun k => ment ROps Q k i * ment ROps Q k j) 2 = dlt i j)).
 Proof. exact (conj ex_householder_hyp ex_similarity_hyp). Qed.
 Print Assumptions C15_hypotheses_satisfiable.
+
+(** ** "For every non-singular square matrix QR_Decomposition returns an orthogonal Q and an upper-triangular R whose
+    product is the matrix" — the whole column loop, every dimension n >= 1, over the reals (where "to rounding" is "exactly").
+    Vocabulary (C15_Proofs_QR.v): [wf n M]: M is a list of n rows of length n.
+    [pivot_ok B]: the first column of the block B is not the zero vector.
+    [qr_pivots_ok k B]: [pivot_ok] holds in each of the next k passes, along the blocks R_submatrix the code itself computes
+      (B, then Sub_Matrix(0,0) of Householder_Matrix(B) * B, ...) — exactly the condition under which no pass divides by zero.
+    [mv n A x i] = sum_j A i j * x j;  [nonsing n A]: (forall i < n, mv n A x i = 0) -> forall j < n, x j = 0  (A x = 0 -> x = 0).
+    [mm n f g] = matrix product of index functions, [tr] = transpose, [eqn n f g]: f and g agree on the n x n block,
+    [orth n q]: q^T q = 1 and q q^T = 1 on the block. *)
+
+(** QR_Decomposition returns (never exits) on every square matrix with n >= 1 *)
+Theorem C15_qr_returns n (M : list (list R)) : (0 < n)%nat -> wf n M ->
+  exists Q Rm, qr_decomposition ROps M = Ok (Q, Rm).
+Proof. exact (qr_returns n M). Qed.
+Print Assumptions C15_qr_returns.
+
+(** (a) Q is orthogonal: Q^T Q = 1 (and Q Q^T = 1) *)
+Theorem C15_qr_orthogonal n (M Q Rm : list (list R)) : wf n M -> qr_pivots_ok n M -> qr_decomposition ROps M = Ok (Q, Rm) ->
+  wf n Q /\
+  (forall i j, (i < n)%nat -> (j < n)%nat -> rsum (fun k => ment ROps Q k i * ment ROps Q k j) n = dlt i j) /\
+  (forall i j, (i < n)%nat -> (j < n)%nat -> rsum (fun k => ment ROps Q i k * ment ROps Q j k) n = dlt i j).
+Proof. exact (qr_orthogonal n M Q Rm). Qed.
+Print Assumptions C15_qr_orthogonal.
+
+(** (b) R is upper triangular, with a non-zero diagonal *)
+Theorem C15_qr_upper_triangular n (M Q Rm : list (list R)) : wf n M -> qr_pivots_ok n M -> qr_decomposition ROps M = Ok (Q, Rm) ->
+  wf n Rm /\ (forall i j, (j < i)%nat -> (i < n)%nat -> ment ROps Rm i j = 0) /\ (forall j, (j < n)%nat -> ment ROps Rm j j <> 0).
+Proof. exact (qr_upper_triangular n M Q Rm). Qed.
+Print Assumptions C15_qr_upper_triangular.
+
+(** (c) Q R = M, entry by entry *)
+Theorem C15_qr_product n (M Q Rm : list (list R)) : wf n M -> qr_pivots_ok n M -> qr_decomposition ROps M = Ok (Q, Rm) ->
+  forall i j, (i < n)%nat -> (j < n)%nat -> rsum (fun k => ment ROps Q i k * ment ROps Rm k j) n = ment ROps M i j.
+Proof. exact (qr_product n M Q Rm). Qed.
+Print Assumptions C15_qr_product.
+
+(** the pivot hypothesis is what non-singularity gives: if M x = 0 -> x = 0 then no pass meets a zero column;
+    a matrix with a left inverse is non-singular in this sense *)
+Theorem C15_qr_pivots_of_nonsingular n (M : list (list R)) : (0 < n)%nat -> wf n M -> nonsing n (ment ROps M) -> qr_pivots_ok n M.
+Proof. exact (nonsing_qr_pivots n M). Qed.
+Print Assumptions C15_qr_pivots_of_nonsingular.
+
+Theorem C15_left_inverse_nonsingular n (a b : nat -> nat -> R) :
+  (forall i j, (i < n)%nat -> (j < n)%nat -> rsum (fun k => b i k * a k j) n = dlt i j) -> nonsing n a.
+Proof. exact (left_inverse_nonsing n a b). Qed.
+Print Assumptions C15_left_inverse_nonsingular.
+
+(** the clause as written: for every non-singular square matrix, Q^T Q = 1, R upper triangular, Q R = M *)
+Theorem C15_qr_nonsingular n (M Q Rm : list (list R)) : wf n M -> nonsing n (ment ROps M) -> qr_decomposition ROps M = Ok (Q, Rm) ->
+  wf n Q /\ wf n Rm /\
+  (forall i j, (i < n)%nat -> (j < n)%nat -> rsum (fun k => ment ROps Q k i * ment ROps Q k j) n = dlt i j) /\
+  (forall i j, (j < i)%nat -> (i < n)%nat -> ment ROps Rm i j = 0) /\
+  (forall i j, (i < n)%nat -> (j < n)%nat -> rsum (fun k => ment ROps Q i k * ment ROps Rm k j) n = ment ROps M i j).
+Proof. exact (qr_nonsingular n M Q Rm). Qed.
+Print Assumptions C15_qr_nonsingular.
+
+(** ** "Eigenvalues returns the spectrum (... sums to the trace ...)" — all sweeps of the QR iteration.
+    Whatever Eigenvalues returns for a non-singular square M is the diagonal of a matrix A = Q^T M Q with Q orthogonal
+    (so A has the spectrum of M) that passed the convergence test [eig_converged]
+    (sum of |A k j|, k > j, divided by the sum of |A j j| is below 1e-12).  Whether the test is ever passed (convergence) is
+    not part of these theorems: it is the hypothesis [eigenvalues ROps M = Ok evs]. *)
+Theorem C15_eigenvalues_similar n (M : list (list R)) evs : wf n M -> nonsing n (ment ROps M) -> eigenvalues ROps M = Ok evs ->
+  exists (A : list (list R)) (q : nat -> nat -> R),
+    wf n A /\ orth n q /\ eqn n (ment ROps A) (mm n (tr q) (mm n (ment ROps M) q)) /\
+    evs = diagonal ROps A /\ eig_converged A.
+Proof. exact (eigenvalues_similar n M evs). Qed.
+Print Assumptions C15_eigenvalues_similar.
+
+(** there are n values and their sum [ls evs] is trace(M), exactly *)
+Theorem C15_eigenvalues_trace n (M : list (list R)) evs : wf n M -> nonsing n (ment ROps M) -> eigenvalues ROps M = Ok evs ->
+  length evs = n /\ fold_right Rplus 0 evs = rsum (fun i => ment ROps M i i) n.
+Proof. exact (eigenvalues_trace n M evs). Qed.
+Print Assumptions C15_eigenvalues_trace.
+
+(** for symmetric M the final iterate is symmetric as well *)
+Theorem C15_eigenvalues_symmetric n (M : list (list R)) evs : wf n M -> nonsing n (ment ROps M) ->
+  (forall i j, (i < n)%nat -> (j < n)%nat -> ment ROps M i j = ment ROps M j i) ->
+  eigenvalues ROps M = Ok evs ->
+  exists (A : list (list R)) (q : nat -> nat -> R),
+    wf n A /\ orth n q /\ eqn n (ment ROps A) (mm n (tr q) (mm n (ment ROps M) q)) /\ symm n (ment ROps A) /\
+    evs = diagonal ROps A /\ eig_converged A.
+Proof. exact (eigenvalues_symmetric n M evs). Qed.
+Print Assumptions C15_eigenvalues_symmetric.
+
+(** non-vacuity: [[3;1];[4;2]] is square and non-singular (hence meets the pivot hypothesis), [[2;1];[1;2]] is in addition
+    symmetric, and Eigenvalues does return on a (non-singular) 1 x 1 matrix *)
+Theorem C15_qr_hypotheses_satisfiable :
+  wf 2 ex_M /\ nonsing 2 (ment ROps ex_M) /\ qr_pivots_ok 2 ex_M /\
+  (wf 2 ex_S /\ nonsing 2 (ment ROps ex_S) /\ symm 2 (ment ROps ex_S)) /\
+  (wf 1 [[2]] /\ nonsing 1 (ment ROps [[2]]) /\ eigenvalues ROps [[2]] = Ok [2]).
+Proof.
+  exact (conj ex_M_wf (conj ex_M_nonsing (conj ex_M_pivots (conj ex_S_hyp
+        (conj (wf1_single 2) (conj (nonsing1_single 2 two_neq_0) (eigenvalues_1x1 2 two_neq_0))))))).
+Qed.
+Print Assumptions C15_qr_hypotheses_satisfiable.
